@@ -1,5 +1,233 @@
-(* C02 - placeholder, replaced below *)
-From Verif Require Import Lib.Bytes Sign.Model.
-Example C02_placeholder : k_signatures = bs "signatures".
-Proof. reflexivity. Qed.
-Print Assumptions C02_placeholder.
+(* C02 - JSON signatures: complete for the signer, sound against any tampering.
+   Statements only; proofs live in Sign/Proofs.v (and Sign/Base64Facts.v).
+   ed25519 enters as the Section parameters pub / sign / verify with the premises of the record
+   ideal_sig (Sign/Proofs.v): completeness, symbolic unforgeability, injectivity, sizes.  The
+   record is inhabited (Example ideal_sig_inhabited below).  Values are JSON values as parsed by
+   the shared reference parser; objects with duplicate keys are outside the domain in which the
+   model is tied to the code (see props/C02.json). *)
+From Verif Require Import Lib.Bytes Json.Ast Json.Parse Json.Print
+     Sign.Base64 Sign.Base64Facts Sign.Model Sign.Proofs Sign.Instance Sign.IdealInstance.
+Open Scope N_scope.
+
+Section C02.
+  Context {key : Type} (pub : key -> bytes) (sign : key -> bytes -> bytes)
+          (verify : bytes -> bytes -> bytes -> bool) (sig_size_ok pk_size_ok : bytes -> bool)
+          (IS : ideal_sig pub sign verify sig_size_ok pk_size_ok).
+  Notation sign_value := (sign_value key sign).
+  Notation verify_value := (verify_value verify sig_size_ok pk_size_ok).
+  Notation sign_all := (sign_all sign).
+
+  (* every object that SignJSON signs verifies under the signer's name, key ID and public key *)
+  Theorem sign_then_verify : forall name kid k m o,
+    sign_value name kid k (JObj m) = Some o -> verify_value name kid (pub k) o = true.
+  Proof. intros. eapply sign_then_verify_value; eauto. Qed.
+
+  (* SignJSON refuses an object only when its signatures member is not a signature map *)
+  Theorem sign_succeeds_iff_signatures_readable : forall name kid k m,
+    sign_value name kid k (JObj m) = None <-> sigs_of m = None.
+  Proof.
+    intros. rewrite (sign_value_obj sign). destruct (sigs_of m); split; congruence.
+  Qed.
+
+  (* ... still after any list of further signers with other (name, key ID) pairs has signed,
+     each of which succeeds *)
+  Theorem sign_then_verify_after_more_signers : forall name kid k m o more,
+    sign_value name kid k (JObj m) = Some o ->
+    Forall (fun s : signer => (fst (fst s), snd (fst s)) <> (name, kid)) more ->
+    exists o', sign_all more o = Some o' /\ verify_value name kid (pub k) o' = true.
+  Proof.
+    intros name kid k m o more S F.
+    destruct (sign_value_result_is_object pub sign verify sig_size_ok pk_size_ok IS _ _ _ _ _ S) as [m' [-> [sm Sm]]].
+    destruct (sign_all_total pub sign verify sig_size_ok pk_size_ok IS more m' sm Sm) as [o' A].
+    exists o'. split; [exact A|].
+    rewrite (verify_after_more_signers pub sign verify sig_size_ok pk_size_ok IS more name kid (pub k) m' o' F A).
+    eapply sign_then_verify_value; eauto.
+  Qed.
+
+  (* ... and after unsigned is set to anything, or removed; more generally whenever the
+     signatures member and the members other than signatures / unsigned are what they were *)
+  Theorem sign_then_verify_after_unsigned_change : forall name kid k m m1,
+    sign_value name kid k (JObj m) = Some (JObj m1) ->
+    (forall u, verify_value name kid (pub k) (jset k_unsigned u (JObj m1)) = true) /\
+    verify_value name kid (pub k) (jdel k_unsigned (JObj m1)) = true /\
+    (forall m2, assoc_last k_signatures m2 = assoc_last k_signatures m1 ->
+                strip_members m2 = strip_members m1 ->
+                verify_value name kid (pub k) (JObj m2) = true).
+  Proof.
+    intros name kid k m m1 S.
+    assert (G : forall m2, assoc_last k_signatures m2 = assoc_last k_signatures m1 ->
+                strip_members m2 = strip_members m1 ->
+                verify_value name kid (pub k) (JObj m2) = true).
+    { intros m2 A B. rewrite (verify_depends_on_signatures_and_content verify sig_size_ok pk_size_ok name kid (pub k) m2 m1 A B).
+      eapply sign_then_verify_value; eauto. }
+    split; [|split]; [| |exact G].
+    - intro u. simpl. apply G.
+      + apply assoc_last_set_other. intro E. pose proof uns_ne_sig as X. rewrite E, bytes_eqb_refl in X. discriminate.
+      + apply strip_members_set_meta. apply is_meta_uns.
+    - simpl. apply G.
+      + rewrite (assoc_last_filter (fun x => negb (bytes_eqb k_unsigned x)) k_signatures m1), uns_ne_sig. reflexivity.
+      + apply strip_members_del_meta. apply is_meta_uns.
+  Qed.
+
+  (* signing keeps the signed members, unsigned and every earlier signature exactly, and adds
+     the signer's own signature over the canonical form of the signed members *)
+  Theorem sign_preserves_signatures_and_unsigned : forall name kid k m o,
+    sign_value name kid k (JObj m) = Some o ->
+    exists m' sm,
+      o = JObj m' /\
+      strip_members m' = strip_members m /\
+      assoc_last k_unsigned m' = assoc_last k_unsigned m /\
+      sigs_of m = Some sm /\
+      sig_at name kid o = Some (sign k (canon_print (JObj (strip_members m)))) /\
+      forall name' kid', (name', kid') <> (name, kid) -> sig_at name' kid' o = lookup_sig name' kid' sm.
+  Proof. intros. eapply sign_preserves; eauto. Qed.
+
+  (* soundness, identity: under another public key the signed object is refused; under another
+     name or key ID the verdict is what it was before signing (refused when no such signature
+     was there) *)
+  Theorem verify_sound_wrong_identity : forall name kid k m o,
+    sign_value name kid k (JObj m) = Some o ->
+    (forall p, p <> pub k -> verify_value name kid p o = false) /\
+    (forall name' kid' p, (name', kid') <> (name, kid) ->
+       verify_value name' kid' p o = verify_value name' kid' p (JObj m)) /\
+    (forall name' kid' p, (name', kid') <> (name, kid) -> sig_at name' kid' (JObj m) = None ->
+       verify_value name' kid' p o = false).
+  Proof.
+    intros name kid k m o S.
+    assert (B : forall name' kid' p, (name', kid') <> (name, kid) ->
+       verify_value name' kid' p o = verify_value name' kid' p (JObj m)).
+    { intros. eapply sign_keeps_other_verdicts; eauto. }
+    split; [|split]; [|exact B|].
+    - intros p N. destruct (verify_value name kid p o) eqn:V; [|reflexivity]. exfalso.
+      destruct (sign_preserves pub sign verify sig_size_ok pk_size_ok IS _ _ _ _ _ S) as [m' [sm [_ [_ [_ [_ [A _]]]]]]].
+      destruct (verify_honest_signature pub sign verify sig_size_ok pk_size_ok IS _ _ _ _ _ _ A V) as [P _].
+      contradiction.
+    - intros name' kid' p N A. rewrite (B _ _ _ N), (verify_value_spec verify sig_size_ok pk_size_ok), A. reflexivity.
+  Qed.
+
+  (* soundness, in general: whatever VerifyJSON accepts carries, under that name and key ID, a
+     signature made with the secret key of the presented public key over the canonical form of
+     exactly the members other than signatures and unsigned *)
+  Theorem verify_accepts_only_genuine_signatures : forall name kid p v,
+    verify_value name kid p v = true ->
+    exists k s, sig_at name kid v = Some s /\ p = pub k /\ s = sign k (canon_print (strip v)).
+  Proof. intros. eapply verify_accepts_only_genuine; eauto. Qed.
+
+  (* soundness, tampering: the signature SignJSON made for one object is refused on every value
+     whose members other than signatures / unsigned have another canonical form ... *)
+  Theorem verify_sound_tamper_canonical : forall name kid k m o v' p,
+    sign_value name kid k (JObj m) = Some o ->
+    sig_at name kid v' = sig_at name kid o ->
+    canon_print (strip v') <> canon_print (strip (JObj m)) ->
+    verify_value name kid p v' = false.
+  Proof.
+    intros name kid k m o v' p S A N.
+    destruct (verify_value name kid p v') eqn:V; [|reflexivity]. exfalso.
+    destruct (sign_preserves pub sign verify sig_size_ok pk_size_ok IS _ _ _ _ _ S) as [m' [sm [_ [_ [_ [_ [A' _]]]]]]].
+    rewrite A' in A.
+    destruct (verify_honest_signature pub sign verify sig_size_ok pk_size_ok IS _ _ _ _ _ _ A V) as [_ C].
+    apply N. exact C.
+  Qed.
+
+  (* ... hence on every value that differs from the signed object in any member other than
+     signatures and unsigned (value change, insertion, deletion, nested edit: the stripped values
+     are not equivalent).  Equivalence of JSON values and the injectivity of the canonical
+     printer up to it are the business of C01 (Json/CanonFacts.v: jequiv, json_wf,
+     canon_print_injective); they enter here as the premise canon_inj, to be discharged by
+     instantiation. *)
+  Section Tamper.
+    Variable jeq : json -> json -> Prop.
+    Variable json_wf : json -> Prop.
+    Hypothesis canon_inj : forall v v', json_wf v -> json_wf v' -> canon_print v = canon_print v' -> jeq v v'.
+
+    Theorem verify_sound_tamper : forall name kid k m o v' p,
+      sign_value name kid k (JObj m) = Some o ->
+      sig_at name kid v' = sig_at name kid o ->
+      json_wf (strip v') -> json_wf (strip (JObj m)) ->
+      ~ jeq (strip v') (strip (JObj m)) ->
+      verify_value name kid p v' = false.
+    Proof.
+      intros name kid k m o v' p S A W W' N.
+      eapply verify_sound_tamper_canonical; eauto.
+    Qed.
+  End Tamper.
+
+  (* ListKeyIDs returns exactly the member names of signatures.<name>, and every key ID under
+     which VerifyJSON can accept is among them *)
+  Theorem list_key_ids_spec : forall name m,
+    (forall ks, list_key_ids_value name (JObj m) = Some ks -> ks = key_ids_of name m) /\
+    (forall kid p, verify_value name kid p (JObj m) = true ->
+       exists ks, list_key_ids_value name (JObj m) = Some ks /\ In kid ks).
+  Proof.
+    intros name m. split.
+    - intros ks H. apply list_key_ids_lists_the_members. exact H.
+    - intros kid p V. rewrite (verify_value_spec verify sig_size_ok pk_size_ok) in V.
+      destruct (sig_at name kid (JObj m)) as [s|] eqn:A; [|discriminate].
+      eapply sig_at_is_listed. exact A.
+  Qed.
+End C02.
+
+(* ---- non-vacuity ------------------------------------------------------------------------ *)
+
+(* the premises are satisfiable *)
+Example ideal_sig_inhabited : ideal_sig clamp32 u_sign u_verify u_sig_ok u_pk_ok.
+Proof. exact unary_scheme_is_ideal. Qed.
+
+(* a concrete run with the scheme the extracted model uses: sign, re-serialise (other member
+   order, white space, the key signatures spelled with an escape), verify; tamper, refuse *)
+Definition ex_key : bytes := bs "seed-0001-xxxxxxxxxxxxxxxxxxxxxx".
+Definition ex_text : bytes := bs "{""type"":""m.x"",""content"":{""body"":""hi""},""unsigned"":{""age"":1}}".
+Definition ex_signed : option bytes := s_sign_json (bs "example.org") (bs "ed25519:1") ex_key ex_text.
+
+Example concrete_sign_verify :
+  match ex_signed with
+  | Some st =>
+      s_verify_json (bs "example.org") (bs "ed25519:1") ex_key st = true /\
+      s_verify_json (bs "example.org") (bs "ed25519:2") ex_key st = false /\
+      s_verify_json (bs "other.org") (bs "ed25519:1") ex_key st = false /\
+      s_verify_json (bs "example.org") (bs "ed25519:1") (bs "seed-0002-xxxxxxxxxxxxxxxxxxxxxx") st = false /\
+      list_key_ids (bs "example.org") st = Some [bs "ed25519:1"]
+  | None => False
+  end.
+Proof. vm_compute. repeat split; reflexivity. Qed.
+
+Example concrete_reserialised_and_tampered :
+  match ex_signed with
+  | Some st =>
+      match parse_json st with
+      | Some (JObj m) =>
+          match assoc_last k_signatures m with
+          | Some sg =>
+              let sgt := canon_print sg in
+              (* members reordered, spaces, escaped spelling of the key *)
+              let t1 := bs "{ """ ++ [92] ++ bs "u0073ignatures"" : " ++ sgt
+                        ++ bs " , ""content"":{""body"":""hi""}, ""type"" :""m.x"" }" in
+              (* one nested value changed *)
+              let t2 := bs "{""signatures"":" ++ sgt ++ bs ",""content"":{""body"":""ho""},""type"":""m.x""}" in
+              (* a member added *)
+              let t3 := bs "{""signatures"":" ++ sgt ++ bs ",""content"":{""body"":""hi""},""type"":""m.x"",""x"":null}" in
+              (* only unsigned changed *)
+              let t4 := bs "{""signatures"":" ++ sgt ++ bs ",""content"":{""body"":""hi""},""type"":""m.x"",""unsigned"":[]}" in
+              s_verify_json (bs "example.org") (bs "ed25519:1") ex_key t1 = true /\
+              s_verify_json (bs "example.org") (bs "ed25519:1") ex_key t2 = false /\
+              s_verify_json (bs "example.org") (bs "ed25519:1") ex_key t3 = false /\
+              s_verify_json (bs "example.org") (bs "ed25519:1") ex_key t4 = true
+          | None => False
+          end
+      | _ => False
+      end
+  | None => False
+  end.
+Proof. vm_compute. repeat split; reflexivity. Qed.
+
+Print Assumptions sign_then_verify.
+Print Assumptions sign_succeeds_iff_signatures_readable.
+Print Assumptions sign_then_verify_after_more_signers.
+Print Assumptions sign_then_verify_after_unsigned_change.
+Print Assumptions sign_preserves_signatures_and_unsigned.
+Print Assumptions verify_sound_wrong_identity.
+Print Assumptions verify_accepts_only_genuine_signatures.
+Print Assumptions verify_sound_tamper_canonical.
+Print Assumptions verify_sound_tamper.
+Print Assumptions list_key_ids_spec.
+Print Assumptions ideal_sig_inhabited.
